@@ -39,3 +39,7 @@ filter_harness!(filter_no_infix, "d/foo.log", InfixFilter::Numbrs, Some("log"), 
 filter_harness!(filter_multibyte_neighbour, "d/foo\u{e9}.log", InfixFilter::Numbrs, Some("log"), false);
 filter_harness!(filter_equals_current, "d/foo_rCURRENT.log", InfixFilter::Equls("rCURRENT".to_string()), Some("log"), true);
 filter_harness!(filter_compressed, "d/foo_r00004.log.gz", InfixFilter::Numbrs, Some("gz"), true);
+// near misses of the suffix: the name merely ends in the letters of the suffix
+filter_harness!(filter_suffix_tail_catalog, "d/foo_r00950.catalog", InfixFilter::Numbrs, Some("log"), false);
+filter_harness!(filter_suffix_tail_tgz, "d/foo_r00000.tgz", InfixFilter::Numbrs, Some("gz"), false);
+filter_harness!(filter_suffix_no_dot, "d/foo_r00777_backlog", InfixFilter::Numbrs, Some("log"), false);
